@@ -917,6 +917,10 @@ def replay(rep, body):
             o = impl_history(case["history"])
             for mode in ("on", "off"):
                 print("  cache", mode, [(x.get("hit"), x.get("reply")) for x in o[mode]])
+        elif case.get("kind") == "e2e" and "trees" in case:
+            from harness.props import C16_e2e
+
+            C16_e2e.replay_case(case)
         elif case.get("kind") == "tree" and "tree" in case:
             o = impl_tree({"tree": case["tree"]})
             print("  on :", o["on"])
